@@ -14,7 +14,7 @@ package cli
 
 // CLI defaults: -build-tags goverter, -output-constraint !goverter; every -g/-global value becomes a global line
 //@ func parseGen
-//@   props C17 C16 C12
+//@   props C17 C16 C12 C13
 //@   at@C16 call fs.String#1 assert arg0 == "build-tags" && arg1 == "goverter"
 //@   at@C16 call fs.String#2 assert arg0 == "output-constraint" && arg1 == "!goverter"
 //@   ensures err != nil ==> result == nil
